@@ -462,7 +462,67 @@ def check_C17(tier, seed):
     return conclude(run, gate, obl)
 
 
-CHECKS = {'C18': check_C18, 'C02': check_C02, 'C14': check_C14, 'C16': check_C16, 'C17': check_C17}
+def domain_check(run, ctx, env, msgs_lines, what):
+    """model only: which fraction of the generated messages lies in the domain of the theorem (wf / canonical)"""
+    lines = ['WFCANON ' + l.split(' ', 1)[1] for l in msgs_lines if l.startswith('PACK ')]
+    if not lines:
+        return 0, 0, 0
+    text = env.text() + '\n'.join(lines) + '\n'
+    rc, out, err = run_driver(ctx.model, text, 'dom')
+    wf = sum(1 for o in out if o.startswith('W 1'))
+    canon = sum(1 for o in out if o.startswith('W 1 1'))
+    envok = sum(1 for o in out if o.endswith(' 1'))
+    return wf, canon, envok
+
+
+def check_C01(tier, seed):
+    run = Run('C01', tier, seed)
+    ctx = build_phase()
+    gate, obl = gate_and_ties(run, ctx, 'C01', seed, tier)
+    rnd = random.Random(seed * 1000003 + 1)
+    st = Stats()
+    envs = envs_for(rnd, tier, 12, 100)
+    per_env = 40 if tier == 'quick' else 120
+    in_dom = [0, 0, 0, 0]
+    for env in envs:
+        st.schemas += 1
+        lines, msgs = stream_pack(rnd, env, st, per_env, canon=True)
+        c_out, m_out, bad, c_err, text = corr(run, ctx, env, lines, 'c01p')
+        if bad or len(c_out) != len(lines):
+            if len(run.violations) < 3:
+                run.violation(report_disagreement(run, env.text(), lines, c_out, m_out, bad, c_err,
+                                                  'Impl <-> C correspondence (pack) disagrees'), False)
+            continue
+        wf, canon, envok = domain_check(run, ctx, env, lines, 'canon')
+        in_dom[0] += len(lines); in_dom[1] += wf; in_dom[2] += canon; in_dom[3] += envok
+        # second stage: parse what the implementation packed, compare with the original message text
+        ulines = []
+        for l, o in zip(lines, c_out):
+            t = o.split()
+            ulines.append('UNPACK %s %s' % (l.split()[2], t[3]))
+        for l in ulines:
+            st.add('UNPACK:packed', l)
+        c2, m2, bad2, c_err2, text2 = corr(run, ctx, env, ulines, 'c01u')
+        if bad2 or len(c2) != len(ulines):
+            if len(run.violations) < 3:
+                run.violation(report_disagreement(run, env.text(), ulines, c2, m2, bad2, c_err2,
+                                                  'Impl <-> C correspondence (unpack of packed bytes) disagrees'), False)
+        for i, (l, o) in enumerate(zip(lines, c2)):
+            want = 'U ' + l.split(' ', 1)[1]
+            if o != want and len(run.violations) < 3:
+                rp = run.replay('oracle-%d.txt' % len(run.violations),
+                                'pack then unpack does not return the original message (implementation)\n--- schema\n%s--- original\n%s\n'
+                                '--- packed bytes\n%s\n--- unpacked\n%s\n' % (env.text(), l, ulines[i], o))
+                run.violation(rp, False)
+    run.cov['domain'] = {'messages': in_dom[0], 'wf_msg': in_dom[1], 'canon_msg': in_dom[2], 'env_ok': in_dom[3],
+                         'note': 'generated messages that satisfy the hypotheses of the C01 theorem, evaluated with the extracted predicates'}
+    finish_stats(run, st, 'random schemas x random canonical messages (boundary scalars, NaN payloads, -0.0, empty and long strings/bytes, '
+                          'repeated counts around 127/128, nesting, oneofs, unknown fields): PACK on C and model, then UNPACK of the '
+                          "implementation's bytes on C and model, and the parsed message must print as the original; distinct = distinct case lines")
+    return conclude(run, gate, obl)
+
+
+CHECKS = {'C01': check_C01, 'C18': check_C18, 'C02': check_C02, 'C14': check_C14, 'C16': check_C16, 'C17': check_C17}
 
 
 def main():
